@@ -82,7 +82,15 @@ func mutexOp(call *ssa.CallCommon) (lockKey, int) {
 }
 
 // canonBase: strip loads of the same parameter/receiver (methods use the receiver value directly).
-func canonBase(v ssa.Value) ssa.Value { return v }
+func canonBase(v ssa.Value) ssa.Value {
+	// a closure reaches its receiver through a captured variable: every load of that variable is the same object
+	if u, ok := v.(*ssa.UnOp); ok && u.Op == token.MUL {
+		if fv, isFV := u.X.(*ssa.FreeVar); isFV {
+			return fv
+		}
+	}
+	return v
+}
 
 type lockInfo struct {
 	at map[ssa.Instruction]lockSet // locks held before each instruction
@@ -211,7 +219,7 @@ func (c *Ctx) LockedAccesses(fn *ssa.Function, entryHeld bool) []FieldAccess {
 		}
 		held := false
 		for k := range li.at[in] {
-			if k.base == base {
+			if k.base == base || k.base == canonBase(base) {
 				held = true
 			}
 		}
